@@ -108,17 +108,24 @@ def po_aave(S):
 
 # ------------------------------------------------------------------------------------------------ Deribit (hourly)
 @proof("C02", "deribit/status-is-the-row-of-the-current-hour;frame-and-its-book-cells-intact", strength="S",
-       shapes={"quick": [{"ts": "open"}, {"ts": "closed"}], "thorough": [{"ts": "open"}, {"ts": "closed"}]})
+       shapes={"quick": [{"ts": "open"}, {"ts": "closed"}, {"ts": "late"}], "thorough": [{"ts": "open"}, {"ts": "closed"}, {"ts": "late"}, {"ts": "half"}]})
 def po_deribit(S):
     from demeter.deribit import DeribitMarketStatus
     w = deribit_world(S, (("I0", "CALL", "open"),), 2, 2, ("I0",), H0)
     m = w.market
     add_next_hour(S, w)
     f0 = dump(frame_cells(m))
-    ts = H0 if S.shape["ts"] == "open" else H0_1
+    # on the hour / one minute past / a quarter to the NEXT hour (whose rows are in the frame: the nearest hour is the future one) / half past
+    ts = {"open": H0, "closed": H0_1, "late": H0 + pd.Timedelta(minutes=45), "half": H0 + pd.Timedelta(minutes=30)}[S.shape["ts"]]
     m.set_market_status(DeribitMarketStatus(ts, None), m._price_status)
     st = dump(frame_cells_of(m._market_status.data))
     S.check("status-depends-only-on-the-current-hour's-rows", len(only_prefixed(symbols_of(st), ("I0_", "underlying"))) == 0)
+    if ts == H0:
+        try:
+            m.estimate_cost("I0", S.dec("quote_amount", 0, 10 ** 6), "buy" if S.bool("quote_a_buy") else "sell")     # a quote must not consume the book
+        except REJECT:
+            pass
+        S.unchanged("frame-and-order-book-cells-intact-after-a-quote(estimate_cost)", f0, dump(frame_cells(m)))
     try:
         m.buy("I0", S.dec("amount", None, None))
         m.sell("I0", S.dec("amount2", None, None))
